@@ -361,6 +361,12 @@ def _variants():
 
     MP = "permuta/patterns/meshpatt.py"
     return [
+        V("render-rows-bottom-up", replace_expr(MP, "MeshPatt.ascii_plot", "range(n, -1, -1)", "range(n + 1)"), "fire-or-undecided", "C18-T1"),
+        V("render-rows-skip-top", replace_expr(MP, "MeshPatt.ascii_plot", "range(n, -1, -1)", "range(n - 1, -1, -1)"), "fire", "C18-T1"),
+        V("render-misses-last-column", replace_expr(MP, "MeshPatt.ascii_plot", "range(n + 1)", "range(n)"), "fire", "C18-T1"),
+        V("render-points-not-reversed", replace_expr(MP, "MeshPatt.ascii_plot", "reversed(array)", "array"), "fire", "C18-T1"),
+        V("render-points-first", replace_expr(MP, "MeshPatt.ascii_plot", "roundrobin(vlines, lines)", "roundrobin(lines, vlines)"), "fire", "C18-T1"),
+        V("render-shaded-blank", replace_stmt(MP, "MeshPatt.ascii_plot", "if char in self.shading: ...", "if char not in self.shading:\n    return '\u2592'"), "fire", "C18-T1"),
         V("simul-pair-not-normalised", replace_stmt("permuta/patterns/meshpatt.py", "MeshPatt.can_simul_shade", "if pos1[1] < pos2[1]: ...", ""), "fire", "C18-R2"),
         V("simul-pair-normalised-after", [replace_stmt("permuta/patterns/meshpatt.py", "MeshPatt.can_simul_shade", "if pos1[1] < pos2[1]: ...", ""), insert_stmt("permuta/patterns/meshpatt.py", "MeshPatt.can_simul_shade", "m_patt = m_patt.rotate()", "if pos1[1] < pos2[1]:\n    pos1, pos2 = pos2, pos1", "before")], "fire", "C18-R2"),
         V("canshade-result-dropped", replace_stmt("permuta/patterns/meshpatt.py", "MeshPatt.can_shade", "return positions", "return []"), "fire", "C18-R2"),
@@ -831,3 +837,92 @@ def run(ctx: Ctx) -> None:  # noqa: F811
 FLOORS["C18-N2"] = 5
 EXPLANATION = EXPLANATION.replace("NOT decided: the simultaneous (two-cell) side conditions,", "(c') the two-cell side conditions are the published Simultaneous Shading Lemma's six conditions, compared after "
                                   "expressing every cell relative to the point (N2). NOT decided:")
+
+
+# ------------------------------------------------------------------ T1: the text rendering is assembled as reviewed (grid rows top-down, one cell row = cell_size lines)
+
+
+def rule_t1(ctx: Ctx) -> None:
+    """ascii_plot: the reviewed assembly – point rows from the top value down, a cell row is `cell_size` copies of one line of
+    `cell_size`-wide cells for columns 0..n, rows n..0, interleaved starting with a cell row, last newline dropped.  Decided
+    as 'equal / propositionally equal to the reviewed construction, or a point change of it'; whether the text parses back
+    is a value-level statement that is not decided."""
+    from ..skeleton import Env, T, show
+    from ..skelrules import classify_term
+
+    f = ctx.repo.need_method("MeshPatt", "ascii_plot")
+    if len(f.params) < 2:
+        raise AnalysisError(f"{f.where}: signature not recognised")
+    cs = f.params[1]
+    binds = {}
+    for st in f.body:
+        if isinstance(st, ast.Assign) and len(st.targets) == 1 and isinstance(st.targets[0], ast.Name):
+            binds.setdefault(st.targets[0].id, []).append(st)
+    rets = [st for st in f.body if isinstance(st, ast.Return)]
+    if len(rets) != 1 or rets[0].value is None:
+        raise AnalysisError(f"{f.where}: single return expected")
+    # the names of the locals are read off the construction itself
+    rr = [n for n in ast.walk(rets[0].value) if isinstance(n, ast.Call) and isinstance(n.func, ast.Name) and n.func.id in f.nested and len(n.args) == 2 and all(isinstance(a, ast.Name) for a in n.args)]
+    nn = [k for k, v in binds.items() if len(v) == 1 and unparse(v[0].value) in (f"len({f.params[0]})", f"len({f.params[0]}.pattern)")]
+    if len(rr) != 1 or len(nn) != 1:
+        raise AnalysisError(f"{f.where}: interleaving call / size local not recognised")
+    inter, n = rr[0].func.id, nn[0]
+    a0, a1 = rr[0].args[0].id, rr[0].args[1].id
+    if len(binds.get(a0, [])) != 1 or len(binds.get(a1, [])) != 1:
+        raise AnalysisError(f"{f.where}: the two line generators are not bound once")
+
+    def helper_calls(name):
+        return [x for x in ast.walk(binds[name][0].value) if isinstance(x, ast.Call) and isinstance(x.func, ast.Name) and x.func.id in f.nested]
+
+    # the generator of cell rows is the one that asks the nested helper for the character of a cell
+    if helper_calls(a0) and not helper_calls(a1):
+        vl, ln = a0, a1
+    elif helper_calls(a1) and not helper_calls(a0):
+        vl, ln = a1, a0
+    else:
+        raise AnalysisError(f"{f.where}: cell-row / point-row generators not told apart")
+    fills = helper_calls(vl)
+    arrs = [k for k, v in binds.items() if len(v) == 1 and isinstance(v[0].value, ast.ListComp) and isinstance(v[0].value.elt, ast.ListComp)]
+    if len(fills) != 1 or len(arrs) != 1:
+        raise AnalysisError(f"{f.where}: grid array / cell character helper not recognised")
+    arr, fill = arrs[0], fills[0].func.id
+    spec = {
+        arr: [f"[['+' for i in range({n})] for j in range({n})]"],
+        ln: [f"((('-' * {cs}).join([''] + line + ['']) + '\\n') for line in reversed({arr}))"],
+        vl: [f"((('|'.join({fill}((j, i)) * {cs} for j in range({n} + 1)) + '\\n') * {cs}) for i in range({n}, -1, -1))"],
+        "<return>": [f"''.join({inter}({vl}, {ln}))[:-1]"],
+    }
+    for name, specs in spec.items():
+        if name == "<return>":
+            node, val = rets[0], rets[0].value
+        else:
+            if len(binds.get(name, [])) != 1:
+                raise AnalysisError(f"{f.where}: local `{name}` of the reviewed construction not found")
+            node, val = binds[name][0], binds[name][0].value
+        got = T(val, Env())
+        wants = [T(ast.parse(s, mode="eval").body, Env()) for s in specs]
+        verdict, why = classify_term(ctx.repo, got, wants)
+        if verdict == "ok":
+            ctx.ok("C18-T1", f.where, f"rendering: `{name}` is the reviewed construction", node, f)
+        elif verdict == "violation":
+            ctx.violation("C18-T1", f, node, f"rendering: `{name}` {why[:300]}")
+        else:
+            raise AnalysisError(f"{f.where}: rendering: `{name}` = {show(got)[:160]} is neither the reviewed construction nor a point change of it")
+    fc = f.nested.get(fill)
+    if fc is None:
+        raise AnalysisError(f"{f.where}: fill_char helper not found")
+    from ..skelrules import check_skeleton
+
+    ctx.run(check_skeleton, ctx, "C18-T1", fc, [f"if a0 in self.shading:\n    return '\\u2592'\nif a0[0] == {n}:\n    return ''\nreturn ' '"],
+            "a shaded cell is drawn filled, the cells of the last column have no width beyond the shading mark, other cells are blank")
+
+
+_OLD_RUN_T1 = run
+
+
+def run(ctx: Ctx) -> None:  # noqa: F811
+    _OLD_RUN_T1(ctx)
+    ctx.run(rule_t1, ctx)
+
+
+FLOORS["C18-T1"] = 5
